@@ -192,12 +192,12 @@ __all__ = [
 ]
 
 
-PLAIN_NAME = re.compile(r"^[A-Za-z_][A-Za-z0-9_]*$")
+PLAIN_NAME = re.compile(r"[A-Za-z_][A-Za-z0-9_]*")
 
 
 def quote_name_if_needed(name: str) -> str:
     """如果名称不是普通标识符（或是词法分析器的保留字），则使用反引号包裹，从而保证输出的源码可以被重新解析为相同的名称"""
-    if PLAIN_NAME.match(name) is not None and name.upper() not in HANDLE_WORD_TO_MARK_HASH:
+    if PLAIN_NAME.fullmatch(name) is not None and name.upper() not in HANDLE_WORD_TO_MARK_HASH:
         return name
     return f"`{name}`"
 
